@@ -350,11 +350,13 @@ namespace Pistache
         template <typename T>
         ResponseStream& operator<<(ResponseStream& stream, const T& val)
         {
-            Size<T> size;
-
-            std::ostream os(&stream.buf_);
-            os << std::hex << size(val) << crlf;
-            os << val << crlf;
+            // Format the value first: the chunk size has to be the number of bytes
+            // that are actually written (and the value is not to be printed in hex
+            // because the size is).
+            std::ostringstream formatted;
+            formatted << val;
+            const std::string data = formatted.str();
+            stream.write(data.data(), static_cast<std::streamsize>(data.size()));
 
             return stream;
         }
